@@ -253,7 +253,7 @@ def main(tier, seed):
     proof = prove(PROP)
     # --- harness
     blocks = [tree_block(i, c, A) for i, c in enumerate(cases)]
-    nchunks = 16
+    nchunks = max(16, -(-len(cases) // 20))      # bounded translation units: ~20 cases per TU in every tier
     chunk_ids = [list(range(k, len(cases), nchunks)) for k in range(nchunks)]
     configs = [("g++", "c++14")]
     other = [c for c in CONFIGS if c != ("g++", "c++14")]
